@@ -45,6 +45,10 @@ func c06values() []func() interface{} {
 		// a nested row handed to Set / ImportAtKey (over nothing, over a scalar, over another nested row)
 		func() interface{} { rr := jsonline.NewRow(); rr.Set("q", 1); rr.Set("b", "z"); return rr },
 		func() interface{} { rr := jsonline.NewRow(); rr.Set("other", true); return rr },
+		// one-entry Go maps handed to ImportAtKey of a key that holds a nested row (Row.Import of the nested row): an
+		// entry the nested row takes, and one a typed cell of the nested row refuses
+		func() interface{} { return map[string]interface{}{"q": 5} },
+		func() interface{} { return map[string]interface{}{"bin": "***"} },
 	}
 }
 
@@ -57,6 +61,18 @@ func c06cells() []func() jsonline.Value {
 			r := jsonline.NewRow()
 			r.Set("q", 1)
 			r.Set("b", "z")
+			return r
+		},
+		// a nested row holding a typed cell (which can refuse) and a DEEPER row whose keys are not in sorted order
+		func() jsonline.Value {
+			deep := jsonline.NewRow()
+			deep.Set("z", 1)
+			deep.Set("m", 2)
+			deep.Set("a", 3)
+			r := jsonline.NewRow()
+			r.Set("q", 1)
+			r.SetValue("bin", jsonline.NewValue(nil, jsonline.Binary, nil))
+			r.Set("in", deep)
 			return r
 		},
 		// cells with a declared raw type: Set and Import on them can fail
